@@ -18,17 +18,22 @@ Cool(te, fd, Tin) == RAdd(R(AmbK(te)), RMul(RSub(Tin, R(AmbK(te))), Fac(fd)))
 
 Modes == {"MF_DT", "MF_TR", "QE_MF", "QE_DT", "QE_TR", "HX"}
 (* consumer: [mode, m (kg/s), dT (K, may be negative: heat fed in)] *)
-TS(x) == Cool(x.te, x.fs, R(TFLOW))                                   \* temperature at the supply junction
+MTot(x) == LET RECURSIVE S(_) S(i) == IF i = 0 THEN 0 ELSE x.cons[i].m + S(i - 1) IN S(Len(x.cons))
+(* x.p2: mass flow of an optional SECOND producer: a mass-flow circulation pump of type "t" (it fixes no pressure, *)
+(* only its feed temperature T2FLOW) taking p2 kg/s from the return junction and feeding the supply junction         *)
+T2FLOW == 345
+MMain(x) == MTot(x) - x.p2                                            \* flow through the main pump and both pipes
+TS(x) == RDiv(RAdd(RMul(R(MMain(x)), Cool(x.te, x.fs, R(TFLOW))), R(x.p2 * T2FLOW)), R(MTot(x)))   \* mix at the supply junction
 TOut(x, i) == RSub(TS(x), R(x.cons[i].dT))                            \* outlet of consumer i
 Q(x, i) == RMul(R(CP * x.cons[i].m), R(x.cons[i].dT))                 \* heat taken out by consumer i (W)
-MTot(x) == LET RECURSIVE S(_) S(i) == IF i = 0 THEN 0 ELSE x.cons[i].m + S(i - 1) IN S(Len(x.cons))
 TR(x) == LET RECURSIVE S(_) S(i) == IF i = 0 THEN R(0) ELSE RAdd(RMul(R(x.cons[i].m), TOut(x, i)), S(i - 1))
          IN RDiv(S(Len(x.cons)), R(MTot(x)))                          \* mix at the return junction
 TRet(x) == Cool(x.te, x.fr, TR(x))                                    \* temperature back at the pump
-PumpHeat(x) == RMul(R(CP * MTot(x)), RSub(R(TFLOW), TRet(x)))         \* what the pump has to put in
+PumpHeat(x) == RMul(R(CP * MMain(x)), RSub(R(TFLOW), TRet(x)))        \* what the main pump has to put in
+Pump2Heat(x) == RMul(R(CP * x.p2), RSub(R(T2FLOW), TR(x)))            \* ... and the second producer
 RECURSIVE SumQ(_, _)
 SumQ(x, i) == IF i = 0 THEN R(0) ELSE RAdd(Q(x, i), SumQ(x, i - 1))
-LossSupply(x) == RMul(R(CP * MTot(x)), RSub(R(TFLOW), TS(x)))
-LossReturn(x) == RMul(R(CP * MTot(x)), RSub(TR(x), TRet(x)))
+LossSupply(x) == RMul(R(CP * MMain(x)), RSub(R(TFLOW), Cool(x.te, x.fs, R(TFLOW))))
+LossReturn(x) == RMul(R(CP * MMain(x)), RSub(TR(x), TRet(x)))
 
 =============================================================================
